@@ -30,6 +30,9 @@ pub struct Opts {
   pub files: Vec<(String, Vec<u8>)>,
   /// last component of the input path: the default name of the torrent (empty = "in")
   pub input_name: String,
+  /// the input path is a symbolic link to the content, which lies elsewhere under another name (`--follow-symlinks` is
+  /// given): the default name is still the last component of the path that was typed
+  pub input_is_link: bool,
 }
 
 impl Opts {
@@ -39,7 +42,7 @@ impl Opts {
   fn to_json(&self) -> Value {
     json!({
       "announce": self.announce, "tiers": self.tiers, "comment": self.comment, "source": self.source,
-      "nodes": self.nodes.iter().map(|n| n.0.clone()).collect::<Vec<_>>(), "update_url": self.update_url, "name": self.name,
+      "nodes": self.nodes.iter().map(|n| n.0.clone()).collect::<Vec<_>>(), "update_url": self.update_url, "name": self.name, "input_is_a_link_to_content_elsewhere": self.input_is_link,
       "p": self.p, "private": self.private, "md5": self.md5, "no_created_by": self.no_created_by, "no_creation_date": self.no_creation_date,
       "single": self.single, "stdout": self.stdout, "overwrite": self.overwrite, "input_name": self.input(),
       "files": self.files.iter().map(|(n, d)| json!([n, hex(d)])).collect::<Vec<_>>(),
@@ -65,6 +68,7 @@ impl Opts {
       stdout: b("stdout"),
       overwrite: b("overwrite"),
       input_name: s("input_name").unwrap_or_default(),
+      input_is_link: v.get("input_is_a_link_to_content_elsewhere").and_then(|b| b.as_bool()).unwrap_or(false),
       files: v.get("files")?.as_array()?.iter().filter_map(|f| Some((f.get(0)?.as_str()?.to_string(), crate::model::unhex(f.get(1)?.as_str()?)?))).collect(),
     })
   }
@@ -94,7 +98,7 @@ impl Opts {
       a.push("--node".into());
       a.push(n.0.clone());
     }
-    for (flag, on) in [("--force", self.overwrite && output != "-"), ("--private", self.private), ("--md5", self.md5), ("--no-created-by", self.no_created_by), ("--no-creation-date", self.no_creation_date)] {
+    for (flag, on) in [("--follow-symlinks", self.input_is_link), ("--force", self.overwrite && output != "-"), ("--private", self.private), ("--md5", self.md5), ("--no-created-by", self.no_created_by), ("--no-creation-date", self.no_creation_date)] {
       if on {
         a.push(flag.into());
       }
@@ -116,6 +120,7 @@ fn gen(rng: &mut Rng) -> Opts {
   let mut o = Opts::default();
   // the default name is the last component of the input path exactly as it is: dots, spaces and all
   o.input_name = rng.pick(&["in", "in", "data.bin", "v1.2", "album.2024", "a b.tar.gz", "ünï.côde.d", "UPPER.Case"]).to_string();
+  o.input_is_link = rng.chance(1, 6);
   let pick = |rng: &mut Rng, xs: &[&str]| Some(xs[rng.below(xs.len() as u64) as usize].to_string());
   if rng.chance(1, 2) {
     o.announce = pick(rng, &urls);
@@ -132,6 +137,11 @@ fn gen(rng: &mut Rng) -> Opts {
   }
   for _ in 0..rng.below(4).saturating_sub(1) {
     o.nodes.push(node_of(&pick(rng, &nodes).unwrap()).unwrap());
+    // (the same node again straight away, now and then: what is asked for twice is written twice)
+    if rng.chance(1, 5) {
+      let again = o.nodes.last().unwrap().clone();
+      o.nodes.push(again);
+    }
   }
   if rng.chance(1, 3) {
     o.update_url = pick(rng, &urls);
@@ -176,6 +186,16 @@ fn now() -> u64 {
 }
 
 fn materialise(sb: &Sandbox, o: &Opts, dir: &str, reverse: bool) {
+  if o.input_is_link {
+    // the content under another name in a directory of its own, the input path a link to it
+    let (parent, leaf) = dir.rsplit_once('/').unwrap_or(("", dir));
+    let real = format!("{parent}/store/the-real-content-of-{}", leaf.len());
+    let mut o2 = o.clone();
+    o2.input_is_link = false;
+    materialise(sb, &o2, &real, reverse);
+    let _ = std::os::unix::fs::symlink(format!("store/the-real-content-of-{}", leaf.len()), sb.path(dir));
+    return;
+  }
   if o.single {
     sb.write(dir, &o.files[0].1);
   } else {
@@ -200,7 +220,7 @@ fn observe(ctx: &Ctx, o: &Opts) -> Obs {
     } else {
       // what is in the way is an earlier torrent of the very same content, made without the other options: the new
       // one must replace it all the same
-      let mut bare = Opts { p: o.p, md5: o.md5, single: o.single, files: o.files.clone(), input_name: o.input_name.clone(), name: o.name.clone(), source: o.source.clone(), private: o.private, update_url: o.update_url.clone(), ..Default::default() };
+      let mut bare = Opts { p: o.p, md5: o.md5, single: o.single, files: o.files.clone(), input_name: o.input_name.clone(), input_is_link: o.input_is_link, name: o.name.clone(), source: o.source.clone(), private: o.private, update_url: o.update_url.clone(), ..Default::default() };
       bare.no_creation_date = true;
       let _ = Cmd::args_owned(&ctx.imdl, bare.args(o.input(), "o.torrent")).cwd(&sb.path("run1")).run();
     }
